@@ -472,6 +472,33 @@ func init() {
 			}
 			w.stats.Inc("probe.P2-uc-address")
 		}
+		// legacy conditions whose ed25519 key is longer than a key: whatever such a key
+		// means, a signature nobody made cannot count for it, nor one signature for two keys
+		{
+			kA, kB := w.wallets[0].keys[0], w.wallets[len(w.wallets)-1].keys[0]
+			pA, pB := kA.PublicKey(), kB.PublicKey()
+			long := append(append([]byte(nil), pA[:]...), sim.HashBytes("c14-long", uint64(t.Choose(50)), 0, 0)[:1+t.Choose(32)]...)
+			var sh types.Hash256
+			copy(sh[:], sim.HashBytes("c14-sh", uint64(t.Choose(1000)), 0, 0))
+			sigB := kB.SignHash(sh)
+			junk := kA.SignHash(sh)
+			junk[t.Choose(64)] ^= 1 << t.Choose(8)
+			h, med := w.nodes[0].tip.Index.Height, w.nodes[0].tip.PrevTimestamps[0]
+			one := types.SpendPolicy{Type: types.PolicyTypeUnlockConditions(types.UnlockConditions{SignaturesRequired: 1, PublicKeys: []types.UnlockKey{{Algorithm: types.SpecifierEd25519, Key: long}}})}
+			for i, sg := range []types.Signature{junk, sigB} {
+				name := []string{"a corrupted signature", "another key's signature"}[i]
+				if one.Verify(h, med, sh, []types.Signature{sg}, nil) == nil {
+					w.violate("C14", "long-key-unchecked", fmt.Sprintf("legacy conditions with one ed25519 key of %d bytes accept %s", len(long), name))
+					return
+				}
+			}
+			two := types.SpendPolicy{Type: types.PolicyTypeUnlockConditions(types.UnlockConditions{SignaturesRequired: 2, PublicKeys: []types.UnlockKey{{Algorithm: types.SpecifierEd25519, Key: long}, {Algorithm: types.SpecifierEd25519, Key: pB[:]}}})}
+			if two.Verify(h, med, sh, []types.Signature{sigB, sigB}, nil) == nil {
+				w.violate("C14", "long-key-unchecked", fmt.Sprintf("2-of-2 legacy conditions (an ed25519 key of %d bytes and a key B) accept B's signature twice", len(long)))
+				return
+			}
+			w.stats.Inc("probe.P2-uc-long-key")
+		}
 		// the encoded form: nesting up to the protocol's depth limit, through the first or a later branch
 		{
 			depth := pick(t, 31, 32, 33, 34, 5)
